@@ -124,6 +124,16 @@ func (x *Exec) step(fr *Frame, ins ssa.Instruction, st *State) []alt {
 		if bc, ok := x.C.(BoundsClient); ok {
 			bc.OnBounds(x, st, fr, ins, "slice", base, lo, hi)
 		}
+		if _, isB := x.C.(BoundsClient); !isB {
+			// the slice expression did not panic: 0 <= lo <= hi on the paths that go on
+			zero := tConst("0", types.Typ[types.Int])
+			if !lo.isNilConst() && !lo.isConst() {
+				st.setFact(tLt(lo, zero), false)
+			}
+			if !lo.isNilConst() && !hi.isNilConst() && !(lo.isConst() && hi.isConst()) {
+				st.setFact(tLt(hi, lo), false)
+			}
+		}
 		return one(st, mk("subslice", "", ins.Type(), base, lo, hi))
 	case *ssa.UnOp:
 		v := x.val(fr, ins.X)
@@ -171,11 +181,23 @@ func (x *Exec) step(fr *Frame, ins ssa.Instruction, st *State) []alt {
 				for _, k := range ks {
 					c := st.mem[k]
 					st.mem[k] = cell{c.addr, l2}
+					if c.addr != nil && !strings.Contains(k, ":") {
+						x.C.OnStore(x, st, fr, ins.Pos(), c.addr, l2, l)
+					}
 				}
+				var svs []ssa.Value
 				for sv, t := range fr.env {
 					if t == l {
-						fr.env[sv] = l2
+						svs = append(svs, sv)
 					}
+				}
+				sort.Slice(svs, func(i, j int) bool { return svs[i].Name() < svs[j].Name() })
+				for _, sv := range svs {
+					fr.env[sv] = l2
+				}
+				if len(svs) > 0 {
+					// the slice as a local value: reported like a store to a cell of its own
+					x.C.OnStore(x, st, fr, ins.Pos(), mk("slicecell", l.Aux, nil), l2, l)
 				}
 			}
 		}
